@@ -405,7 +405,7 @@ def constructed_route(r):
                    tags=["literal-copy"])
             return
 
-    def build(fluents, atoms):
+    def build(fluents, atoms, masked=()):
         fl = {}
         for name, args, val in fluents:
             sig = {x: t1 for x in args}
@@ -416,7 +416,8 @@ def constructed_route(r):
         preds = {}
         for a in atoms:
             lifted = D().predicates[a[0]]
-            g = GroundedPredicate(a[0], lifted.signature, dict(zip(lifted.signature, a[1:])))
+            g = GroundedPredicate(a[0], lifted.signature, dict(zip(lifted.signature, a[1:])), is_masked=a in masked) \
+                if a in masked else GroundedPredicate(a[0], lifted.signature, dict(zip(lifted.signature, a[1:])))
             preds.setdefault(lifted.untyped_representation, set()).add(g)
         return State(preds, fl, is_init=False)
     specs = [([("h", ("a", "a"), 2.0), ("f", (), 1.0)], [("p", "a")]),
@@ -437,6 +438,21 @@ def constructed_route(r):
             r.fail("serialize", f"route constructed: the copy of a state assembled from {fluents} / {atoms} serializes as "
                    f"{show(cp)}", want.to_json(), show(cp), tags=["constructed", "copy"])
             return
+        # the optional constructor flag is_masked (an annotation for learners) is not part of a fact's identity: a
+        # state holding flagged facts is the same value - equal, and serialized / typed-serialized / copied alike
+        for k in range(1, len(atoms) + 1):
+            msk = guard(build, fluents, atoms, tuple(atoms[:k]))
+            r.count("transitions")
+            res = guard(lambda: [msk == st, st == msk, observe_state(msk), observe_state(msk.copy()),
+                                 sorted(sexp.dumps(x) for x in sexp.read(msk.typed_serialize())[1:]),
+                                 sorted(sexp.dumps(x) for x in sexp.read(st.typed_serialize())[1:])])
+            if isinstance(msk, Raised) or isinstance(res, Raised) or res[0] is not True or res[1] is not True \
+                    or not same_state(res[2], want) or not same_state(res[3], want) or res[4] != res[5]:
+                r.fail("serialize", f"route constructed: {atoms[:k]} of {atoms} built with is_masked=True: == plain state "
+                       f"{res if isinstance(res, Raised) else res[:2]}, serialize {'' if isinstance(res, Raised) else show(res[2])}, copy "
+                       f"{'' if isinstance(res, Raised) else show(res[3])}, typed {'' if isinstance(res, Raised) else res[4]}; expected "
+                       f"equal and {want.to_json()}", want.to_json(), str(res)[:300], tags=["constructed", "masked"])
+                return
 
 
 def negzero(r):
